@@ -174,7 +174,7 @@ def _plan(prop, mod, tier, seed, only_clause, jobs):
             continue
         if c.enumerate is not None:
             size = c.enum_size(tier) if c.enum_size else 0
-            nsh = max(1, min(c.max_shards, jobs, math.ceil(size / 2000) if size else jobs))
+            nsh = max(1, min(c.max_shards, jobs, math.ceil(size / c.enum_per_shard) if size else jobs))
             for s in range(nsh):
                 tasks.append(("enum", prop, tier, seed, (c.name, s, nsh)))
         if c.strategy is not None:
